@@ -43,14 +43,6 @@ Fixpoint valid_from (id : N) (l : list txrec) : bool :=
 (* the primary's history: transaction ids are the positions 1, 2, ... *)
 Definition primary_valid (P : list txrec) : bool := valid_from 1 P.
 
-(* binary linking as performPrecommit produces it: only the first transaction has BlTxID = 0 *)
-Fixpoint linked_from (id : N) (l : list txrec) : bool :=
-  match l with
-  | [] => true
-  | r :: t => ((id =? 1) || (0 <? h_bltxid (t_hdr r))) && linked_from (id + 1) t
-  end.
-Definition linked (P : list txrec) : bool := linked_from 1 P.
-
 (* ---- the replicator's actions on one replica ---- *)
 Inductive action :=
 | ADeliver (skip : bool) (j : nat) (tr : bool)   (* ReplicateTx(export of the primary's (j+1)-th tx) *)
@@ -75,9 +67,7 @@ Definition act (c : cfg) (P : list txrec) (st : store) (a : action) : store :=
 
 (* any order, any duplication, any retries, restarts and discards: every finite action list *)
 Definition run (c : cfg) (P : list txrec) (acts : list action) : store :=
-  fold_left (act c P) acts store_init.
-
-Definition is_discard (a : action) : bool := match a with ADiscard _ => true | _ => false end.
+  fold_left (act c P) acts (store_open c).
 
 (* the replica's copy of a primary record: identical, or identical without the values when the
    primary had truncated them before exporting *)
